@@ -643,7 +643,10 @@ impl<W: Word, B: AsRef<[W]> + AsMut<[W]>> BitFieldSliceMut<W> for BitFieldVec<W,
                 bit_len - (W::BITS - dst_bit) - (dst_last_word - dst_first_word - 1) * W::BITS;
             let mask = W::MAX >> (W::BITS - residual);
             dest[dst_last_word] &= !mask;
-            dest[dst_last_word] |= source[src_last_word] & mask;
+            // The low bits of the last word come from the bits carried over
+            // from the previous source word; the remaining ones (if any)
+            // from the last source word
+            dest[dst_last_word] |= (word | (source[src_last_word] << shift)) & mask;
         } else {
             // src_first_word != src_last_word && dst_first_word !=
             // dst_last_word && src_bit > dst_bit
